@@ -5,6 +5,9 @@
 #include <optional>
 #include "verif.hpp"
 
+struct CallResult { bool threw = false; std::string what; };
+template <class F> CallResult guardedCall(F &&f) { CallResult r; try { f(); } catch (const std::exception &e) { r.threw = true; r.what = e.what(); } catch (...) { r.threw = true; r.what = "non-std"; } return r; }
+
 using namespace coloquinte;
 
 struct Inst {
@@ -14,6 +17,7 @@ struct Inst {
 };
 
 static const float SCALES[3] = {1.0f, 0.37f, 1.0e4f};
+static const long long BIGQ = 1500000000LL;  // kind 5: demands and capacities multiplied by this (areas are 64-bit)
 
 static std::string enc(const Inst &in) {
   return std::to_string(in.kind) + "|" + vf::joinInts(in.cap) + "|" + vf::joinInts(in.dem) + "|" + vf::joinInts(in.cost);
@@ -64,17 +68,23 @@ static vf::Verdicts eval(const Inst &in, vf::Ctx &ctx) {
   int K = in.cap.size(), M = in.dem.size();
   auto fail = [&](const std::string &cls, const std::string &msg) { out.push_back({cls, msg + " | " + enc(in)}); };
   std::optional<TransportationProblem> pb;
+  Inst inBig = in;
+  if (in.kind == 5) {
+    for (auto &x : inBig.cap) x *= BIGQ;
+    for (auto &x : inBig.dem) x *= BIGQ;
+  }
+  const Inst &inq = in.kind == 5 ? inBig : in;
   try {
     if (in.kind >= 1 && in.kind <= 3) {
       std::vector<std::vector<float>> fc(K, std::vector<float>(M));
       for (int i = 0; i < K; ++i)
         for (int j = 0; j < M; ++j) fc[i][j] = in.cost[i * M + j] * SCALES[in.kind - 1];
-      pb.emplace(in.cap, in.dem, fc);
+      pb.emplace(inq.cap, inq.dem, fc);
     } else {
       std::vector<std::vector<CostType>> ic(K, std::vector<CostType>(M));
       for (int i = 0; i < K; ++i)
         for (int j = 0; j < M; ++j) ic[i][j] = in.cost[i * M + j];
-      pb.emplace(in.cap, in.dem, ic);
+      pb.emplace(inq.cap, inq.dem, ic);
     }
     if (in.kind == 4) {
       pb->increaseCapacity();
@@ -111,11 +121,13 @@ static vf::Verdicts eval(const Inst &in, vf::Ctx &ctx) {
   for (int j = 0; j < M; ++j) {
     long long s = 0;
     for (int i = 0; i < K; ++i) s += al[i][j];
-    if (s != in.dem[j]) { fail("source-not-fully-allocated", "source " + std::to_string(j) + " got " + std::to_string(s)); return out; }
+    if (s != inq.dem[j]) { fail("source-not-fully-allocated", "source " + std::to_string(j) + " got " + std::to_string(s)); return out; }
   }
   for (int i = 0; i < K; ++i)
     if (used[i] > pb->capacity(i)) { fail("sink-over-capacity", "sink " + std::to_string(i)); return out; }
-  long long opt = bruteMin(pb->capacities(), in.dem, pb->costs());
+  long long opt;
+  if (in.kind == 5) opt = bruteMin(in.cap, in.dem, pb->costs()) * BIGQ;  // the optimum is linear in a common quantity factor
+  else opt = bruteMin(pb->capacities(), in.dem, pb->costs());
   if (cost != opt) fail("plan-not-optimal", "cost " + std::to_string(cost) + " > optimum " + std::to_string(opt));
   // derived assignment: an arg-max of the allocations of each source
   std::vector<int> as = pb->toAssignment();
@@ -126,12 +138,44 @@ static vf::Verdicts eval(const Inst &in, vf::Ctx &ctx) {
       for (int i = 0; i < K; ++i) mx = std::max(mx, al[i][j]);
       if (as[j] < 0 || as[j] >= K || al[as[j]][j] != mx) { fail("assignment-not-argmax", "source " + std::to_string(j)); break; }
     }
+  // history on the same object: malformed warm starts are refused (exception), then the problem is solved again
+  {
+    std::vector<std::vector<DemandType>> before = pb->allocations();
+    std::vector<std::vector<DemandType>> shortRows(K, std::vector<DemandType>(M > 1 ? M - 1 : 0, 0));
+    CallResult r1 = guardedCall([&] { pb->setAllocations(shortRows); });
+    if (!r1.threw && M > 0) fail("malformed-allocations-accepted", "");
+    for (int round = 0; round < 2; ++round) {
+    if (round == 1) {
+      CallResult r2 = guardedCall([&] { pb->setAssignment(std::vector<int>(M, K)); });
+      if (!r2.threw) fail("malformed-assignment-accepted", "");
+    }
+    CallResult r3 = guardedCall([&] { pb->solve(); });
+    if (r3.threw) fail("solve-throws-after-a-refused-warm-start", r3.what);
+    else {
+      const auto &al2 = pb->allocations();
+      bool ok = (int)al2.size() == K;
+      long long cost2 = 0;
+      for (int i = 0; i < K && ok; ++i) {
+        if ((int)al2[i].size() != M) { ok = false; break; }
+        for (int j = 0; j < M; ++j) cost2 += al2[i][j] * (long long)pb->costs()[i][j];
+      }
+      for (int j = 0; j < M && ok; ++j) {
+        long long sj = 0;
+        for (int i = 0; i < K; ++i) sj += al2[i][j];
+        if (sj != inq.dem[j]) ok = false;
+      }
+      if (!ok) fail("plan-malformed-after-a-refused-warm-start", "");
+      else if (cost2 != opt) fail("plan-not-optimal-after-a-refused-warm-start", "cost " + std::to_string(cost2) + " optimum " + std::to_string(opt));
+    }
+    }
+    (void)before;
+  }
   // non-trivial: the optimum is not reached by sending every source to its cheapest sink independently
   long long greedy = 0;
   for (int j = 0; j < M; ++j) {
     long long b = 1LL << 60;
     for (int i = 0; i < K; ++i) b = std::min<long long>(b, pb->costs()[i][j]);
-    greedy += b * in.dem[j];
+    greedy += b * inq.dem[j];
   }
   if (opt > greedy) { ctx.count("capacity_binding_cases"); ctx.nontrivial(vf::fnv(enc(in))); }
   return out;
@@ -176,6 +220,9 @@ int main(int argc, char **argv) {
         }
         if (K * M <= 6 || th) gen(K, M, 4, cv, 2, 3);
       }
+    // quantities beyond 2^31 (cell areas are 64-bit): small shapes with demands and capacities multiplied by 1.5e9
+    for (int K = 1; K <= 3; ++K)
+      for (int M = 1; M <= 2; ++M) gen(K, M, 5, {0, 1, 2}, 3, 2);
     // three sinks x four sources with binary costs: chains of two hops through full sinks
     gen(3, 4, 0, {0, 1}, 3, 3);
     // four sinks: assignment problems (unit demands and capacities), three cost values; quick: last sink free of charge
